@@ -29,7 +29,7 @@ LEVEL = META['level']
 RULE = ('a case = one (stream, chunking) parsed, or one (stream, truncation offset, chunking) delivered to the server; chunkings/offsets enumerated as described; distinct by the tuple; '
         'non-trivial = the stream has >= 2 frames or the cut falls inside a frame')
 ASSUMPTIONS = ['the server is given 3 s to close a connection after EOF (wall-clock only guards; exceeding it is inconclusive, not a violation)']
-REQUIRED = ['parser:streams', 'parser:two-way-splits', 'parser:bytewise', 'parser:k-way', 'parser:frame-spanning-recv-blocks', 'parser:zero-length-payload',
+REQUIRED = ['parser:source-rememberable', 'parser:source-chainable', 'parser:streams', 'parser:two-way-splits', 'parser:bytewise', 'parser:k-way', 'parser:frame-spanning-recv-blocks', 'parser:zero-length-payload',
             'client:streams', 'client:responses', 'client:nop-frames', 'trunc:trials', 'trunc:inside-header', 'trunc:inside-payload', 'trunc:on-frame-boundary', 'trunc:inside-write-frame',
             'trunc:register-frame', 'monitor:state-equals-complete-frames-only', 'monitor:second-session-alive', 'monitor:fresh-session', 'monitor:connection-table-baseline',
             'monitor:reply-count']
@@ -54,16 +54,19 @@ def gen_stream(rng):
     return frames
 
 
-def parse_stream(cpppo, parser, chunks, nframes):
-    """one machine, one source, one run per frame -- the loop of enip_srv_tcp"""
+def parse_stream(cpppo, parser, chunks, nframes, remembering=False):
+    """one machine, one source, one run per frame -- the loop of enip_srv_tcp (which uses a remembering source and forgets before
+    every frame) or of the client (plain chainable source)"""
     import contextlib
-    source = cpppo.chainable()
+    source = cpppo.rememberable() if remembering else cpppo.chainable()
     chunks = list(chunks)
     out = []
     with parser.enip_machine(context='enip') as machine:
         for _ in range(nframes + 1):
             data = cpppo.dotdict()
             eof = False
+            if remembering:
+                source.forget()
             with contextlib.closing(machine.run(path='request', source=source, data=data)) as engine:
                 for mch, sta in engine:
                     if sta is not None:
@@ -85,10 +88,13 @@ def check_parse(ctx, cpppo, parser, frames, chunks, label):
     from vlib import refcodec as rc
     stream = b''.join(frames)
     wit = {'frames': [len(f) for f in frames], 'chunks': [len(c) for c in chunks][:80], 'chunking': label, 'stream': stream[:400]}
+    remembering = (len(stream) + len(chunks)) % 2 == 1
+    wit['source'] = 'rememberable' if remembering else 'chainable'
+    ctx.count('parser:source-' + wit['source'])
     try:
-        res = parse_stream(cpppo, parser, chunks, len(frames))
+        res = parse_stream(cpppo, parser, chunks, len(frames), remembering)
     except Exception as exc:
-        ctx.violation('framing-raises', '%s chunking of %d frames raised %r' % (label, len(frames), exc), wit)
+        ctx.violation('framing-raises', '%s chunking of %d frames (%s source) raised %r' % (label, len(frames), wit['source'], exc), wit)
         return
     ctx.case((stream[:200], len(stream), tuple(len(c) for c in chunks)), nontrivial=len(frames) >= 2)
     ctx.count('parser:' + label)
@@ -319,10 +325,16 @@ def trunc_trial(ctx, sim, second, rng, reqs, frames_of, t, chunk_mode, register_
                 chunks = [stream[:cut], stream[cut:]]
             else:
                 chunks = [stream] if stream else []
-            for c in chunks:
-                sock.sendall(c)
-                if len(chunks) > 1:
-                    time.sleep(0.001)
+            try:
+                for c in chunks:
+                    sock.sendall(c)
+                    if len(chunks) > 1:
+                        time.sleep(0.001)
+            except OSError as exc:
+                # the stream is a prefix of a valid request stream: the simulator has no reason to end the connection while it arrives
+                ctx.violation('connection-dropped-during-valid-stream', 'the simulator closed the connection while a valid request stream was being delivered (%s, %d chunks): %r' % (
+                    chunk_mode, len(chunks), exc), wit)
+                return
         sock.shutdown(socket.SHUT_WR)
         # collect replies until the server closes
         buf = b''
